@@ -125,9 +125,22 @@ def check_triple(mg, method, nv, order, ntv=3):
     # ln omega of ONE AND THE SAME sampled volume, no volume twice, abscissae in ascending ln V (volumes are listed decreasing)
     if len(xs) != len(ys) or len(xs) < 2:
         return "interpolant built on %d abscissae / %d ordinates" % (len(xs), len(ys))
+    # the interpolant may live on a SHIFTED abscissa x = ln V + c (centring the nodes, c common to nodes and evaluation points): then it is the same function of
+    # ln V, with the same derivatives; c is read off the first node and must be shared by every node and by the grid
+    def same(a_, b_):
+        return a_.eq(b_) or z3.is_true(z3.simplify(a_ == b_)) or smt.prove(a_ == b_, timeout_ms=2000, fallback=False).status == core.PROVED
+    shift = None
+    for i in range(nv):
+        c = z3.simplify(symnp.term(xs[0]) - symnp.LOG(V[i].z))
+        if all(any(same(symnp.term(xs[j]), symnp.LOG(V[k].z) + c) for k in range(nv)) for j in range(len(xs))):
+            shift = c
+            if z3.is_true(z3.simplify(c == 0)):
+                break
+    if shift is None:
+        return "abscissae of the interpolant (%s, ...) are not ln V of sampled volumes (up to a common shift)" % (xs[0],)
     used = []
     for j in range(len(xs)):
-        i = next((i for i in range(nv) if symnp.term(xs[j]).eq(symnp.LOG(V[i].z))), None)
+        i = next((i for i in range(nv) if same(symnp.term(xs[j]), symnp.LOG(V[i].z) + shift)), None)
         if i is None:
             return "abscissa %d of the interpolant (%s) is not ln V of a sampled volume" % (j, xs[j])
         if not symnp.term(ys[j]).eq(symnp.LOG(W[i].z)):
@@ -143,7 +156,7 @@ def check_triple(mg, method, nv, order, ntv=3):
             return "output %d has length %d" % (which, len(arr))
         for t in range(ntv):
             f = z3.Function("I%d_nu%d" % (I.id, nu), z3.RealSort(), z3.RealSort())
-            val = f(symnp.LOG(grid[t].z))
+            val = f(symnp.LOG(grid[t].z) + shift)
             want = symnp.EXP(val) if which == 0 else -val
             got = symnp.term(arr[t])
             if not (got.eq(want) or z3.is_true(z3.simplify(got == want))):
@@ -400,7 +413,7 @@ def admissible(method, nv):
         return [o for o in (2, 3, 4, 5) if o < nv]
     if method == "lsq_poly":
         return [o for o in (1, 2, 3, 4, 5) if o < nv]
-    return [o for o in (2, 3, 4, 6) if o < nv]
+    return [o for o in (2, 3, 4, 5, 6, 8) if o < nv]
 
 
 def native_exactness(mg, method):
@@ -424,7 +437,7 @@ def exactness(s, mg):
     for trial2 in range(2 * n):
         trial, layout = divmod(trial2, 2)
         if layout == 0:
-            nv = int(rnd.randint(6, 13))
+            nv = int(rnd.randint(6, 17))                    # up to 16 sampled volumes: node-based methods then keep up to 8 nodes
             vmax = float(rnd.uniform(150, 900))
             vmin = vmax * rnd.uniform(0.6, 0.8)
             V = numpy.linspace(vmax, vmin, nv)
@@ -452,8 +465,9 @@ def exactness(s, mg):
                                   "observed": "raises %r" % (e,), "expected": "power law reproduced"})
                     break
                 wt = w0 * (grid / V[0]) ** (-g0)
-                # rounding amplification of the node-based polynomial forms (scipy.lagrange works with monomial coefficients) is not a defect
-                tw, tg, td = (1e-6, 1e-5, 5e-3) if method in ("lsq_poly", "spline", "pchip", "akima") else (1e-4, 1e-3, 0.5)
+                # one tolerance for every method: with the abscissa centred, scipy's monomial-coefficient Lagrange form is as accurate as Krogh's divided differences
+                # (1e-10 at 8 nodes); uncentred it lost two digits per node (2e-4 at 6 nodes, 0.9 at 8) -- known_findings.json, fixed
+                tw, tg, td = (1e-6, 1e-5, 5e-3)
                 ok = numpy.allclose(w, wt, rtol=tw, atol=0) and numpy.allclose(g, g0, rtol=0, atol=tg) and numpy.allclose(dg, 0, rtol=0, atol=td)
                 if not ok:
                     if method == "akima" and numpy.any(numpy.isnan(w)):
@@ -489,7 +503,7 @@ def exactness(s, mg):
                 break
         if fails:
             break
-    s.bounded_standin("C11.exactness(real scipy)", "%d random power-law tables (6-12 volumes, V_max 150-900, gamma -1..3; each followed in the same process by a table with the same end points and count but nodes uniform in ln V) x 7 methods x admissible orders, grid extended by 1.2; "
+    s.bounded_standin("C11.exactness(real scipy)", "%d random power-law tables (6-16 volumes, V_max 150-900, gamma -1..3; each followed in the same process by a table with the same end points and count but nodes uniform in ln V) x 7 methods x admissible orders, grid extended by 1.2; "
                       "log-polynomial tables for lsq_poly orders 1-5; tolerances 1e-6 / 1e-5 / 5e-3; seed %d" % (n, s.seed), evals, distinct, fails,
                       [MG + "interpolate_mode_*"])
     s.notes["hermite_raises_in_exactness_runs"] = hermite_seen
